@@ -20,6 +20,7 @@ import Biogo.Proofs.NWAffine
 import Biogo.Proofs.SWAffine
 import Biogo.Proofs.FittedAffine
 import Biogo.Proofs.NoAdjSuffices
+import Biogo.Proofs.FittedClass
 
 namespace Biogo.Properties.C08_aff
 open Biogo.Spec.Alignment Biogo.AlignAff Biogo.Spec.AffineOpt
@@ -134,6 +135,57 @@ theorem fittedAffine_not_opt :
     by decide, by decide, by decide +kernel, ⟨0, by decide, by decide, by decide, by decide⟩,
     (by show noAdj _ = true; decide), by decide⟩
 
+/-- **C08, FittedAffine: optimal over the class it explores** (what remains of finding K3 is
+    exactly the difference between this class and all fitted alignments).  For all matrices,
+    gap-open values and non-empty sequences the model of `FittedAffine` returns pairs whose total
+    is the maximum of the affine score over the alignments of the whole query with a reference
+    segment ending at the reported end that
+      * have no gap directly next to a gap in the other sequence (K1),
+      * end with a letter pair (the end value is read from the match layer only),
+      * start with a letter pair — or, when the segment starts at reference position 0, with a
+        gap in the reference (the free reference prefix sits in the `up` layer of column 0 and
+        feeds only the match layer of column 1)
+    (`Spec.FittedRestricted.IsFittedRestricted`): upper bound and attainment. -/
+theorem fittedAffine_opt_restricted (S : Matrix) (gapOpen : Int) (r q : List Nat) (hr : r ≠ []) (hq : q ≠ []) :
+    ∃ ps, fitAlign S gapOpen r q = .ok ps ∧
+      (∀ a, Biogo.Spec.FittedRestricted.IsFittedRestricted a r q (Biogo.Spec.AffPairs.lastEnd ps).1 →
+        scoreAff S gapOpen a ≤ total ps) ∧
+      (∃ a, Biogo.Spec.FittedRestricted.IsFittedRestricted a r q (Biogo.Spec.AffPairs.lastEnd ps).1 ∧
+        scoreAff S gapOpen a = total ps) :=
+  Biogo.Proofs.FittedClass.fitAlign_restricted_opt S gapOpen r q hr hq
+
+/-- the yardstick of the K3 recogniser is what it claims to be: for every row `e` the
+    match-layer value of the last column of the fitted table is the maximum of the affine
+    score over the restricted class for end `e` (`none` iff the class is empty) -/
+theorem fittedRestricted_yardstick (S : Matrix) (gapOpen : Int) (r q : List Nat) (hq : q ≠ []) (e : Nat)
+    (he : e ≤ r.length) :
+    (∀ a, Biogo.Spec.FittedRestricted.IsFittedRestricted a r q e →
+        ∃ x, ((fitTable S gapOpen r q).at e q.length).d = some x ∧ scoreAff S gapOpen a ≤ x) ∧
+    (∀ x, ((fitTable S gapOpen r q).at e q.length).d = some x →
+        ∃ a, Biogo.Spec.FittedRestricted.IsFittedRestricted a r q e ∧ scoreAff S gapOpen a = x) :=
+  Biogo.Proofs.FittedClass.fitTable_restricted_opt S gapOpen r q hq e he
+
+/-- non-vacuity: the class is inhabited (`ac` against `ac`, two letter pairs) -/
+example : Biogo.Spec.FittedRestricted.IsFittedRestricted [.m 1 1, .m 2 2] [3, 1, 2] [1, 2] 3 :=
+  ⟨⟨1, by decide, by decide, by decide, by decide⟩, (by show noAdj _ = true; decide), by decide,
+    Or.inl (by decide)⟩
+
+/-- The classical side condition does not rescue `FittedAffine` (there is no analogue of
+    `nwAffine_opt_of_side_condition`): unit costs satisfy `S x 0 + S 0 y ≤ S x y`, gap-open 0,
+    and the K3 witness (`r = a`, `q = aac`: −3 reported for end 1, `a--` / `aac` scores −1)
+    stands.  The alignment that wins ends with a gap in the reference, which the match-layer
+    end cannot represent, whatever the matrix. -/
+theorem fittedAffine_side_condition_insufficient :
+    ∃ (M : List (List Int)) (gapOpen : Int) (r q : List Nat) (ps : List Pair) (a : Aln),
+      gapOpen ≤ 0 ∧ (∀ x, x < 3 → sc M x 0 ≤ 0 ∧ sc M 0 x ≤ 0) ∧
+      (∀ x, x < 3 → ∀ y, y < 3 → sc M x 0 + sc M 0 y ≤ sc M x y) ∧
+      fitAlign (sc M) gapOpen r q = .ok ps ∧
+      IsFitted a r q (Biogo.Spec.AffPairs.lastEnd ps).1 ∧ NoAdj a ∧ total ps < scoreAff (sc M) gapOpen a :=
+  ⟨[[0, -1, -1], [-1, 1, -1], [-1, -1, 1]], 0, [1], [1, 1, 2],
+    [⟨0, 0, 0, 2, -2⟩, ⟨0, 1, 2, 3, -1⟩], [.m 1 1, .l 1, .l 2],
+    by decide, by decide, by decide, by decide +kernel, ⟨0, by decide, by decide, by decide, by decide⟩,
+    (by show noAdj _ = true; decide), by decide⟩
+
 /-- non-vacuity: the K1 witness itself -/
 example : nwAlign (sc [[0, 0, 0], [-2, 1, -10], [-2, -10, 1]]) (-2) [1] [2] = .ok [⟨0, 1, 0, 1, -10⟩] := by
   decide +kernel
@@ -209,7 +261,7 @@ theorem design_side_condition_insufficient :
       nwAlign (sc M) gapOpen r q = .ok ps ∧ IsGlobal a r q ∧ total ps < scoreAff (sc M) gapOpen a :=
   ⟨[[0, -1, -1, -1, -1], [-1, -10, -10, -10, -10], [-1, -10, -10, -10, -10], [-1, -10, -10, -10, -10],
      [-1, -10, -10, -10, -10]], -4, [1, 1], [2, 2],
-    [⟨0, 1, 0, 1, -10⟩, ⟨1, 1, 1, 2, -5⟩, ⟨1, 2, 2, 2, -5⟩], [.u 1, .u 1, .l 2, .l 2],
+    [⟨0, 2, 0, 2, -20⟩], [.u 1, .u 1, .l 2, .l 2],
     by decide, by decide, by decide +kernel, ⟨by decide, by decide⟩, by decide⟩
 
 end Biogo.Properties.C08_aff
